@@ -7,9 +7,20 @@ Time is `Nat` nanoseconds. `I` is the refill interval in ns, `B` the burst size.
 -/
 namespace IndicatifModel.Limiter
 
+/-- repairs: `f6` — a full bucket keeps no remainder (both limiters); `f7` — the draw interval is
+`⌈10^9 / rate⌉` ns instead of `⌊1000 / rate⌋` ms -/
+structure LFix where
+  f6 : Bool := false
+  f7 : Bool := false
+deriving Repr, DecidableEq
+
+/-- the repairs the repository contains now; the harness runs the model with this value (`FX=current`) -/
+def LFix.current : LFix := { f6 := true, f7 := true }
+
 structure Cfg where
   I : Nat
   B : Nat
+  f6 : Bool
 deriving Repr, DecidableEq
 
 structure St where
@@ -22,7 +33,8 @@ def allow (c : Cfg) (s : St) (now : Nat) : Bool × St :=
   if now < s.prev then (false, s) else
   let el := now - s.prev
   if s.cap = 0 ∧ el < c.I then (false, s) else
-  (true, { cap := min c.B (s.cap + el / c.I - 1), prev := now - el % c.I })
+  if c.f6 = true ∧ c.B ≤ s.cap + el / c.I - 1 then (true, { cap := c.B, prev := now })
+  else (true, { cap := min c.B (s.cap + el / c.I - 1), prev := now - el % c.I })
 
 /-- a history of calls at the given times; verdicts in order, final state -/
 def run (c : Cfg) (s : St) : List Nat → List Bool × St
@@ -36,6 +48,13 @@ def count (bs : List Bool) : Nat := (bs.filter id).length
 def avail (c : Cfg) (s : St) (t : Nat) : Nat := s.cap * c.I + (t - s.prev)
 
 /-- interval used by the draw target for refresh rate `rate` (integer division as in the code) -/
-def drawInterval (rate : Nat) : Nat := (1000 / rate) * 1000000
+def drawInterval (fx : LFix) (rate : Nat) : Nat :=
+  if fx.f7 then (1000000000 + rate - 1) / rate else (1000 / rate) * 1000000
+
+/-- the draw target's limiter for a refresh rate -/
+def drawCfg (fx : LFix) (rate : Nat) : Cfg := { I := drawInterval fx rate, B := 20, f6 := fx.f6 }
+
+/-- the position gate of `AtomicPosition` -/
+def posCfg (fx : LFix) : Cfg := { I := 1000000, B := 10, f6 := fx.f6 }
 
 end IndicatifModel.Limiter
